@@ -11,6 +11,8 @@ import subprocess
 import sys
 import time
 
+V = os.path.dirname(os.path.dirname(os.path.abspath(__file__)))      # the checks of THIS copy are run (a development copy may live elsewhere)
+
 
 def sh(cmd, **kw):
     return subprocess.run(cmd, shell=True, stdout=subprocess.PIPE, stderr=subprocess.STDOUT, text=True, **kw)
@@ -55,7 +57,7 @@ def main():
         for p in props:
             for seed in seeds:
                 t0 = time.time()
-                r = sh(f'cd /verif && timeout 1800 /venv/bin/python -m checks.run {p} --tier {tier}',
+                r = sh(f'cd {V} && timeout 1800 /venv/bin/python -m checks.run {p} --tier {tier}',
                        env=dict(env, VERIF_REPO=wt, VERIF_SEED=str(seed), PYTHONHASHSEED='0', **({} if opts.get('full') else {'VERIF_FAILFAST': '1'})))
                 lines = [l for l in r.stdout.splitlines() if l.startswith('VIOLATION') or l.startswith('  signature') or l.startswith('  what') or l.startswith('ERROR') or 'Traceback' in l]
                 verdict = 'DETECTED' if r.returncode == 1 else 'missed' if r.returncode == 0 else f'HARNESS-ERROR({r.returncode})'
@@ -72,7 +74,7 @@ def main():
     finally:
         if not opts.get('keep'):
             sh(f'git -C /repo worktree remove --force {wt}')
-            sh('rm -rf /verif/replays/*')
+            sh(f'rm -rf {V}/replays/*')
 
     print('RESULT', json.dumps(out))
 
